@@ -117,6 +117,20 @@ func GenShape(t *rapid.T, p *Program) {
 		}
 		p.ApplyMs = append(p.ApplyMs, slow)
 	}
+	// protocol version 2 (still supported while a cluster is upgraded): everywhere or mixed
+	switch prof {
+	case "safety", "clients", "futures", "snapshot", "durability", "converge", "commit", "election":
+		switch oneOf(t, "protoMode", 0, 0, 0, 0, 0, 0, 0, 1, 2) {
+		case 1:
+			for range p.Suffrage {
+				p.Proto = append(p.Proto, 2)
+			}
+		case 2:
+			for range p.Suffrage {
+				p.Proto = append(p.Proto, oneOf(t, "proto", 0, 2))
+			}
+		}
+	}
 	// keep at least two voters in multi-server verify/commit shapes
 	p.RCL = flavourMode >= 3
 	p.LeaseDiv = oneOf(t, "leaseDiv", 1, 1, 2)
